@@ -526,7 +526,7 @@ def impl_run(case, deck):
             ids = Ids(False)
             chart = corpus_charts(init[1])[init[2]]
     except Exception as e:  # noqa
-        return [["err", exc_name(e)]], [], None, str(e)
+        return [["err", exc_name(e)]], [], None, "%s: %s" % (type(e).__name__, e)
     msg = None
 
     def snap():
@@ -1109,8 +1109,8 @@ def check_case(ck, case, deck, types_by_ct, report=True):
             if k == 0:
                 # creation failed: in the property's domain that is a violation by itself
                 d0 = init[2] if init[0] in ("W", "G") else None
-                if d0 and d0["k"] == "cat" and d0["cats"] and d0["cats"][0][0][0] in ("d", "t") and '"' in (d0.get("fmt") or "") and "construct error" in (msg or ""):
-                    problems.append(("number-format-quote-breaks-date-axis", "add_chart raises XMLSyntaxError (%s) for date categories whose number format contains a double quote: the area, bar and line writers paste categories.number_format unescaped into the formatCode attribute of c:dateAx/c:numFmt" % msg))
+                if d0 and d0["k"] == "cat" and d0["cats"] and d0["cats"][0][0][0] in ("d", "t") and '"' in (d0.get("fmt") or "") and "XMLSyntaxError" in (msg or ""):
+                    problems.append(("number-format-quote-breaks-date-axis", "add_chart raises %s for date categories whose number format contains a double quote: the area, bar and line writers paste categories.number_format unescaped into the formatCode attribute of c:dateAx/c:numFmt" % msg))
                 elif not case["class"].startswith("malformed/"):
                     problems.append(("add-chart-raises", "add_chart raised %s" % msg))
             else:
